@@ -25,9 +25,8 @@ def ghost():
 
 def inv_fields(n, m, W, Aw, Q, lo, hi, zero=False):
     from pydsol.core.statistics import WeightedTally
-    f = A.ctor_defaults(WeightedTally, "t")         # every other attribute __init__ creates keeps its initial value
-    f.update(_inv_fields(n, m, W, Aw, Q, lo, hi, zero))
-    return f
+    # every other attribute __init__ creates keeps its initial value; the lemmas iterate the invariant fields only
+    return A.StateFields(A.ctor_defaults(WeightedTally, "t"), _inv_fields(n, m, W, Aw, Q, lo, hi, zero))
 
 
 def _inv_fields(n, m, W, Aw, Q, lo, hi, zero=False):
